@@ -118,6 +118,7 @@ pub struct Vm {
     pub ghost loader_result: Option<ErrorKind>,   // None: the loader finds source text; Some(k): it fails with kind k
     pub ghost compiles: bool,
     pub ghost body_starts: nat,           // closure calls made on behalf of imports
+    pub ghost frames_full: bool,          // the active fiber already has FRAMES_MAX call frames (unit calls: call_closure)
     pub ghost seeded: Set<int>,           // module cells whose table has been given the built-ins (init_built_in_globals)
 }
 
@@ -127,7 +128,7 @@ impl Vm {
         forall|k: int| self.modules.view.dom().contains(k) ==> self.mods.dom().contains(#[trigger] self.modules.view[k].id())
     }
     pub open spec fn same_registry(&self, o: &Vm) -> bool { self.modules == o.modules && self.mods == o.mods && self.runs == o.runs && self.body_starts == o.body_starts && self.active_module == o.active_module && self.seeded == o.seeded }
-    pub open spec fn same_env(&self, o: &Vm) -> bool { self.next_path == o.next_path && self.loader_result == o.loader_result && self.compiles == o.compiles }
+    pub open spec fn same_env(&self, o: &Vm) -> bool { self.next_path == o.next_path && self.loader_result == o.loader_result && self.compiles == o.compiles && self.frames_full == o.frames_full }
     pub open spec fn runs_of(&self, k: int) -> nat { if self.runs.dom().contains(k) { self.runs[k] } else { 0 } }
 
     // interning (C11): the path string of a module is one object per content
@@ -135,14 +136,14 @@ impl Vm {
     #[verifier::external_body]
     fn new_gc_obj_string(&mut self, data: &str) -> (r: Gc<ObjString>)
         ensures r.id() == Self::intern_id(data@), old(self).same_registry(final(self)), final(self).stack == old(self).stack, final(self).raised == old(self).raised,
-            final(self).next_path == old(self).next_path, final(self).loader_result == old(self).loader_result, final(self).compiles == old(self).compiles,
+            old(self).same_env(final(self)),
     { unimplemented!() }
     // Root::new(RefCell::new(m)): a fresh cell
     #[verifier::external_body]
     fn alloc_module(&mut self, m: ObjModule) -> (r: Root<RefCell<ObjModule>>)
         ensures !old(self).mods.dom().contains(r.id()), final(self).mods == old(self).mods.insert(r.id(), m),
             final(self).modules == old(self).modules, final(self).runs == old(self).runs, final(self).stack == old(self).stack, final(self).raised == old(self).raised,
-            final(self).next_path == old(self).next_path, final(self).loader_result == old(self).loader_result, final(self).compiles == old(self).compiles, final(self).body_starts == old(self).body_starts,
+            old(self).same_env(final(self)), final(self).body_starts == old(self).body_starts, final(self).seeded == old(self).seeded, final(self).active_module == old(self).active_module,
     { unimplemented!() }
     #[verifier::external_body]
     fn module_content(&self, g: Gc<RefCell<ObjModule>>) -> (r: &ObjModule)
@@ -162,7 +163,7 @@ impl Vm {
     //@fn file=yarel/src/vm.rs path=Vm::module ret=r
     //@  subst "Root::new(RefCell::new(ObjModule::new( self.class_store.module_class(), path, )))" => "{ let c = self.class_store.module_class(); self.alloc_module(ObjModule::new(c, path)) }"
     //@  requires old(self).wf()
-    //@  ensures final(self).wf(), final(self).runs == old(self).runs, final(self).stack == old(self).stack, final(self).raised == old(self).raised, final(self).body_starts == old(self).body_starts, old(self).same_env(final(self))
+    //@  ensures final(self).wf(), final(self).runs == old(self).runs, final(self).stack == old(self).stack, final(self).raised == old(self).raised, final(self).body_starts == old(self).body_starts, old(self).same_env(final(self)), final(self).seeded == old(self).seeded, final(self).active_module == old(self).active_module
     //@  ensures @every_import_yields_the_same_module_object old(self).modules.view.dom().contains(Vm::intern_id(path@)) ==> r.id() == old(self).modules.view[Vm::intern_id(path@)].id() && final(self).modules == old(self).modules && final(self).mods == old(self).mods
     //@  ensures @new_module_registered_once !old(self).modules.view.dom().contains(Vm::intern_id(path@)) ==> !old(self).mods.dom().contains(r.id()) && final(self).modules.view.dom() == old(self).modules.view.dom().insert(Vm::intern_id(path@)) && final(self).modules.view[Vm::intern_id(path@)].id() == r.id() && final(self).mods[r.id()].imported == false && final(self).mods[r.id()].path.id() == Vm::intern_id(path@) && (forall|k: int| old(self).modules.view.dom().contains(k) ==> final(self).modules.view[k] == old(self).modules.view[k]) && (forall|i: int| old(self).mods.dom().contains(i) ==> final(self).mods.dom().contains(i) && final(self).mods[i] == old(self).mods[i])
     //@end
@@ -203,13 +204,18 @@ impl Vm {
     fn new_root_obj_closure(&mut self, function: Gc<ObjFunction>, module: Gc<RefCell<ObjModule>>) -> (r: Root<ObjClosure>)
         ensures closure_module(r.gc()) == module, old(self).same_registry(final(self)), old(self).same_env(final(self)), final(self).stack == old(self).stack, final(self).raised == old(self).raised
     { unimplemented!() }
-    // starting the module body (a closure call); whatever it does later happens in the interpreter loop, not here
+    // starting the module body (a closure call); whatever it does later happens in the interpreter loop, not here.
+    // Its own contract is calls/Vm::call_closure: with FRAMES_MAX frames already active the call is REFUSED — an
+    // IndexError is delivered to the handlers, and if one of them catches it the result is Ok although no body was
+    // started and the interpreter's cached view (active module included) is now the HANDLER's frame.
     #[verifier::external_body]
     fn call_value(&mut self, value: Value, arg_count: usize) -> (r: Result<(), Error>)
-        ensures final(self).modules == old(self).modules, final(self).mods == old(self).mods, final(self).body_starts == old(self).body_starts + 1, final(self).raised == old(self).raised, old(self).same_env(final(self)), final(self).seeded == old(self).seeded, final(self).stack == old(self).stack,
+        ensures final(self).modules == old(self).modules, final(self).mods == old(self).mods, old(self).same_env(final(self)), final(self).seeded == old(self).seeded,
+            !old(self).frames_full ==> final(self).body_starts == old(self).body_starts + 1 && final(self).raised == old(self).raised && final(self).stack == old(self).stack,
+            old(self).frames_full ==> final(self).body_starts == old(self).body_starts && final(self).raised == Some(ErrorKind::IndexError),
             // calling a closure makes its frame the innermost one and the interpreter's cached view that frame's: the
             // active namespace is the closure's module (units calls / exc: call_closure, load_frame)
-            (r is Ok && value is ObjClosure) ==> final(self).active_module == closure_module(value->ObjClosure_0),
+            (r is Ok && value is ObjClosure && !old(self).frames_full) ==> final(self).active_module == closure_module(value->ObjClosure_0),
     { unimplemented!() }
     // `self.active_module.borrow().path`
     #[verifier::external_body]
@@ -252,7 +258,9 @@ impl Vm {
     //@  ensures @module_still_loading_is_import_error (old(self).registered(old(self).next_path) && !old(self).content_of(old(self).next_path).imported) ==> final(self).raised == Some(ErrorKind::ImportError) && final(self).body_starts == old(self).body_starts && final(self).modules == old(self).modules && final(self).mods == old(self).mods
     //@  ensures @module_not_found_is_reported (!old(self).registered(old(self).next_path) && old(self).loader_result is Some) ==> final(self).raised == old(self).loader_result && final(self).body_starts == old(self).body_starts && final(self).modules == old(self).modules && final(self).mods == old(self).mods
     //@  ensures @module_that_fails_to_compile_is_import_error_and_not_registered (!old(self).registered(old(self).next_path) && old(self).loader_result is None && !old(self).compiles) ==> final(self).raised == Some(ErrorKind::ImportError) && final(self).body_starts == old(self).body_starts && final(self).modules == old(self).modules && final(self).mods == old(self).mods
-    //@  ensures @first_import_registers_and_starts_the_body_once (!old(self).registered(old(self).next_path) && old(self).loader_result is None && old(self).compiles) ==> final(self).body_starts == old(self).body_starts + 1 && final(self).registered(old(self).next_path) && !final(self).content_of(old(self).next_path).imported && final(self).raised == old(self).raised
+    //@  ensures @first_import_registers_and_starts_the_body_once (!old(self).registered(old(self).next_path) && old(self).loader_result is None && old(self).compiles && !old(self).frames_full) ==> final(self).body_starts == old(self).body_starts + 1 && final(self).registered(old(self).next_path) && !final(self).content_of(old(self).next_path).imported && final(self).raised == old(self).raised
+    //@  ensures @an_import_at_the_call_depth_limit_is_a_reported_error_and_runs_nothing (!old(self).registered(old(self).next_path) && old(self).loader_result is None && old(self).compiles && old(self).frames_full) ==> final(self).body_starts == old(self).body_starts && final(self).raised == Some(ErrorKind::IndexError)
+    //@  ensures @an_import_gives_the_built_ins_to_the_new_module_and_to_no_other forall|m: int| final(self).seeded.contains(m) ==> old(self).seeded.contains(m) || (!old(self).registered(old(self).next_path) && final(self).registered(old(self).next_path) && m == final(self).modules.view[old(self).next_path].id())
     //@  ensures @a_freshly_imported_module_is_given_the_built_ins_before_its_body_runs (!old(self).registered(old(self).next_path) && old(self).loader_result is None && old(self).compiles && r is Ok) ==> final(self).seeded.contains(final(self).modules.view[old(self).next_path].id())
     //@end
 
